@@ -39,6 +39,14 @@ def file_effect(fn, c):
     return kind, handle_class(fn, recv)
 
 
+def is_memory_handle(fn, c, operand):
+    """the receiver `operand` of io call `c` is (or may be) the memory file, not an in-memory buffer"""
+    st = c.self_ty() or ''
+    if any(x in st for x in ('Vec<u8>', 'Cursor<', 'String', 'Sha256', 'Hasher', 'BufWriter<Vec', 'Formatter', '[u8]')):
+        return False
+    return handle_class(fn, operand) in ('M', 'P')
+
+
 def handle_class(fn, operand):
     sl = lib.slice_back(fn, [operand], through_calls=True)
     if sl.fields & M_FIELDS:
